@@ -5,6 +5,8 @@ limits on the lattice) comes with the complete expected result; the real fire mu
 every row's distance, time and flags, the RangeError reason, the terminal / tail row, the iteration count."""
 from __future__ import annotations
 
+import json
+import math
 from typing import Any, Dict, List
 
 from pbv import core, impl, integ
@@ -21,7 +23,7 @@ THOROUGH = dict(WindMenus="{ <<>>, <<<<6, 16>>, <<4, 32>>>>, <<<<-8, 8>>, <<7, 1
                 DropLims="{-64, -20, -64000}", AltLims="{-48, -64000}", VelLims="{0, 5}", MaxIt=300)
 
 PROPS = ("SPECIFICATION Spec\nINVARIANT L_C03_OneRowPerMultiple\nINVARIANT L_C03_TimesIncrease\nINVARIANT L_C04_Verdict\n"
-         "INVARIANT L_TwoRows\nPROPERTY L_C04_Terminates\n")
+         "INVARIANT L_TwoRows\nINVARIANT L_RowHeights\nPROPERTY L_C04_Terminates\n")
 
 _cases: Dict[str, List[Dict[str, Any]]] = {}
 
@@ -34,7 +36,32 @@ def cases(chk: core.Check, thorough: bool) -> List[Dict[str, Any]]:
         gen = core.run_tlc("Gen_Lattice", cfg + "SPECIFICATION Spec\nINVARIANT Emit\n", defs=defs, workers=1, tags=["CASE"], timeout=3000)
         chk.tlc(gen, f"Gen_Lattice ({key})")
         _cases[key] = gen.out("CASE")
+        _model_pairs(_cases[key])
     return _cases[key]
+
+
+def _model_pairs(cs: List[Dict[str, Any]]) -> None:
+    """C11 on the model, across behaviours (a two-run property TLC cannot state as an invariant of one behaviour): for every
+    pair of scenarios differing only in the extra-data flag, the plain rows are rows of the extra-data result (same distance,
+    time, height, vertical velocity) and the added rows carry an event flag.  The model failing this is a machinery error."""
+    by = {}
+    for c in cs:
+        k = json.dumps({a: b for a, b in c["sc"].items() if a != "extra"}, sort_keys=True)
+        by.setdefault(k, {})[bool(c["sc"]["extra"])] = c
+    n = 0
+    for k, d in by.items():
+        if len(d) != 2 or d[False]["status"] != d[True]["status"]:
+            continue
+        n += 1
+        core_of = lambda r: (r["x"], r["t"], r["y"], r["vy"], r["term"])
+        plain, extra = [core_of(r) for r in d[False]["rows"]], [core_of(r) for r in d[True]["rows"]]
+        if any(r not in extra for r in plain):
+            raise core.MachineryError(f"Lattice model: plain rows not a subset of the extra-data rows for {k}")
+        for r in d[True]["rows"]:
+            if core_of(r) not in plain and not (set(r["fl"]) & {"U", "D", "M"}) and not r["term"]:
+                raise core.MachineryError(f"Lattice model: extra-data adds an unflagged row for {k}")
+    if n == 0:
+        raise core.MachineryError("Lattice model: no plain / extra-data scenario pairs")
 
 
 def run_case(c: Dict[str, Any]) -> Dict[str, Any]:
@@ -71,7 +98,10 @@ def run_case(c: Dict[str, Any]) -> Dict[str, Any]:
         for it in call["iters"][:3]:
             if it["wind"].x * 2 != round(it["wind"].x * 2):
                 raise core.MachineryError(f"lattice precondition: wind {it['wind'].x!r} not on the half-fps grid")
-    out["obs_rows"] = [{"x": (r.distance >> U.Foot) * 4.0, "t": r.time * 16.0, "fl": sorted(k for k, b in FL.items() if int(r.flag) & b)}
+    out["obs_rows"] = [{"x": (r.distance >> U.Foot) * 4.0, "t": r.time * 16.0, "fl": sorted(k for k, b in FL.items() if int(r.flag) & b),
+                        "y": (r.height >> U.Foot) * 512.0, "tdrop_ft": r.target_drop >> U.Foot, "look_ft": r.look_distance >> U.Foot,
+                        "wind_ft": r.windage >> U.Foot, "v_fps": r.velocity >> U.FPS, "angle": r.angle >> U.Radian,
+                        "dadj": r.drop_adj >> U.Radian}
                        for r in out["rows"]]
     return out
 
@@ -79,7 +109,8 @@ def run_case(c: Dict[str, Any]) -> Dict[str, Any]:
 def compare(chk: core.Check, prop: str, c: Dict[str, Any], o: Dict[str, Any]) -> None:
     """report the differences that belong to property `prop`"""
     sc = c["sc"]
-    exp_rows = [{"x": float(r["x"]), "t": float(r["t"]), "fl": sorted(r["fl"]), "term": r["term"]} for r in c["rows"]]
+    exp_rows = [{"x": float(r["x"]), "t": float(r["t"]), "fl": sorted(r["fl"]), "term": r["term"], "y": float(r["y"]), "vy": float(r["vy"])}
+                for r in c["rows"]]
     key = {"source": "lattice", "winds": len(sc["winds"]), "grav": sc["grav"], "extra": sc["extra"], "timed": sc["tstep"] > 0,
            "status": c["status"]}
     det = {"scenario": sc, "expected": {"status": c["status"], "reason": c["reason"], "rows": c["rows"], "iterations": c["its"]},
@@ -93,7 +124,7 @@ def compare(chk: core.Check, prop: str, c: Dict[str, Any], o: Dict[str, Any]) ->
         elif c["status"] == "RangeErr":
             if o["reason"] != REASON[c["reason"]]:
                 chk.violation("C04.ReasonPrecedence", key, det)
-            if not obs or (obs[-1]["x"], obs[-1]["t"]) != (exp_rows[-1]["x"], exp_rows[-1]["t"]):
+            if not obs or (obs[-1]["x"], obs[-1]["t"], obs[-1]["y"]) != (exp_rows[-1]["x"], exp_rows[-1]["t"], exp_rows[-1]["y"]):
                 chk.violation("C04.TerminalRow", key, det)
             if o["its"] != c["its"]:
                 chk.violation("C04.StoppedAtWrongIteration", key, det)
@@ -104,6 +135,8 @@ def compare(chk: core.Check, prop: str, c: Dict[str, Any], o: Dict[str, Any]) ->
             chk.violation("C03.LatticeRowsDiffer", key, det)
         if o["status"] == c["status"] == "Done" and o["its"] != c["its"]:
             chk.violation("C03.IterationBeyondRange" if o["its"] > c["its"] else "C03.LoopEndedEarly", key, det)
+        if obs and exp_rows and exp_rows[0]["x"] == 0 and not _same_contents(obs[0], exp_rows[0]):
+            chk.violation("C03.LatticeMuzzleRow", key, det)
     elif prop == "C12":
         if sc["winds"] and o["status"] == c["status"] and len(obs) == len(exp_rows):
             # the active segment determines dt: with a wrong / late / missing switch the times (and the iteration count) move
@@ -117,6 +150,23 @@ def compare(chk: core.Check, prop: str, c: Dict[str, Any], o: Dict[str, Any]) ->
     elif prop == "C11":
         if o["status"] == c["status"] and len(obs) != len(exp_rows):
             chk.violation("C11.RowEmission", key, det)
+        elif o["status"] == c["status"]:
+            # the state reported at a distance is the lattice state there: height exactly, the derived columns to rounding
+            # (the expected rows of a plain request are a subset of those of the extra-data request: checked on the model in cases())
+            bad = [j for j, (a, b) in enumerate(zip(obs, exp_rows)) if (a["x"], a["t"]) != (b["x"], b["t"]) or not _same_contents(a, b)]
+            if bad:
+                chk.violation("C11.LatticeRowContents", key, {**det, "rows": bad[:5]})
+
+
+def _same_contents(a: Dict[str, Any], b: Dict[str, Any]) -> bool:
+    """observed row a against expected lattice row b (same distance): height / target drop / look distance exact (dyadic
+    arithmetic), speed, trajectory angle and drop adjustment to a few ulp of the exact vertical velocity"""
+    y_ft, vy = b["y"] / 512.0, b["vy"] / 256.0
+    x_ft = b["x"] / 4.0
+    close = lambda u, v: abs(u - v) <= 4 * max(math.ulp(u), math.ulp(v), 5e-324)
+    return (a["y"] == b["y"] and a["tdrop_ft"] == y_ft and a["look_ft"] == x_ft and a["wind_ft"] == 0.0
+            and close(a["v_fps"], math.sqrt(16.0 + vy * vy)) and close(a["angle"], math.atan2(vy, 4.0))
+            and close(a["dadj"], math.atan(y_ft / x_ft) if x_ft else 0.0))
 
 
 def replay(chk: core.Check, prop: str, thorough: bool, every: int = 1) -> None:
